@@ -715,6 +715,9 @@ udp_recv_data(udp_ep *ep, udp_sp_msg *dreq, size_t len, const nng_sockaddr *sa)
 			if (p->npipe != NULL) {
 				nni_pipe_bump_error(p->npipe, NNG_ENOMEM);
 			}
+			// the receive buffer has to be whole again for the
+			// next datagram (its storage is still there)
+			nni_msg_realloc(ep->rx_payload, ep->rcvmax);
 			return;
 		}
 		nni_msg_set_address(msg, sa);
@@ -730,6 +733,7 @@ udp_recv_data(udp_ep *ep, udp_sp_msg *dreq, size_t len, const nng_sockaddr *sa)
 			if (p->npipe != NULL) {
 				nni_pipe_bump_error(p->npipe, NNG_ENOMEM);
 			}
+			nni_msg_realloc(ep->rx_payload, ep->rcvmax);
 			return;
 		}
 
